@@ -58,20 +58,31 @@ def tagged_dist(dim: int):
     return Tagged((dim,), (dim,), jnp.asarray(0.7))
 
 
-def tagged_prior(dim: int):
+_PRIOR_CLS = []
+
+
+def tagged_prior(dim: int, scale: float = 2.0):
+    """Instances of ONE class (the same pytree structure) that differ in the value of an array leaf only."""
+    if _PRIOR_CLS:
+        return _PRIOR_CLS[0]((dim,), None, jnp.asarray(float(scale)))
     from flowjax.distributions import AbstractDistribution
 
     class Prior(AbstractDistribution):
         shape: tuple
-        cond_shape: None = None
+        cond_shape: None
+        s: jax.Array          # the prior's scale: an array leaf, different from run to run (same pytree structure)
 
         def _log_prob(self, x, condition=None):
-            return -0.5 * jnp.sum((x[1:] / 2.0) ** 2) - (x.shape[0] - 1) * jnp.log(2.0) - 0.5 * (x.shape[0] - 1) * jnp.log(2 * jnp.pi)
+            return -0.5 * jnp.sum((x[1:] / self.s) ** 2) - (x.shape[0] - 1) * jnp.log(self.s) - 0.5 * (x.shape[0] - 1) * jnp.log(2 * jnp.pi)
 
         def _sample(self, key, condition=None):
-            return jnp.concatenate([jnp.zeros(1), 2.0 * jr.normal(key, (self.shape[0] - 1,))])
+            return jnp.concatenate([jnp.zeros(1), self.s * jr.normal(key, (self.shape[0] - 1,))])
 
-    return Prior((dim,))
+    _PRIOR_CLS.append(Prior)
+    return Prior((dim,), None, jnp.asarray(float(scale)))
+
+
+_JIT_CALL = eqx.filter_jit(lambda loss, p, s, x, c, k: loss(p, s, x, c, k))
 
 
 def contrastive_runs(rep: Report, rng: random.Random, thorough: bool):
@@ -93,8 +104,11 @@ def contrastive_runs(rep: Report, rng: random.Random, thorough: bool):
                 c[:, 0] = np.arange(b) + 1000
                 LOG.clear()
                 key = jr.PRNGKey(int(rs.integers(2**31)))
+                ps = [2.0, 0.75, 3.5, 1.25][(b + n + rep_i) % 4]          # a new loss object with another prior of the same structure each run
+                prior = tagged_prior(dim, ps)
+                loss_obj = ContrastiveLoss(prior, n)
                 try:
-                    val = float(ContrastiveLoss(prior, n)(params, static, jnp.asarray(x), jnp.asarray(c), key))
+                    val = float(loss_obj(params, static, jnp.asarray(x), jnp.asarray(c), key))
                     jax.effects_barrier()
                 except Exception as e:  # noqa: BLE001
                     rep.violation({"loss": "ContrastiveLoss", "batch": b, "n_contrastive": n, "error": type(e).__name__},
@@ -103,7 +117,7 @@ def contrastive_runs(rep: Report, rng: random.Random, thorough: bool):
                 pairs = sorted((cc, xx) for xx, cc in LOG)
                 # value recomputed from the recorded sets with the defining formula
                 lq = lambda xi, ci: -0.5 * np.sum((x[xi, 1:] - 0.7 * c[ci, 1:]) ** 2) - 0.5 * (dim - 1) * np.log(2 * np.pi)  # noqa: E731
-                lp = lambda xi: -0.5 * np.sum((x[xi, 1:] / 2) ** 2) - (dim - 1) * np.log(2.0) - 0.5 * (dim - 1) * np.log(2 * np.pi)  # noqa: E731
+                lp = lambda xi: -0.5 * np.sum((x[xi, 1:] / ps) ** 2) - (dim - 1) * np.log(ps) - 0.5 * (dim - 1) * np.log(2 * np.pi)  # noqa: E731
                 tot, ok_rows = 0.0, True
                 for i in range(b):
                     xs_i = [xx for cc, xx in pairs if cc == i]
@@ -117,6 +131,18 @@ def contrastive_runs(rep: Report, rng: random.Random, thorough: bool):
                     tot += -(pos - logsumexp(logits))
                 ref = tot / b
                 matches = ok_rows and abs(val - ref) <= 1e-10 * (1 + abs(ref))
+                # the same loss object handed to a jitted function as an argument (what the training step does): every loss
+                # object must be evaluated with ITS prior, not with one cached from an earlier object that looks alike
+                try:
+                    vj = float(_JIT_CALL(loss_obj, params, static, jnp.asarray(x), jnp.asarray(c), key))
+                    jax.effects_barrier()
+                    if not abs(vj - val) <= 1e-9 * (1 + abs(val)):
+                        rep.violation({"loss": "ContrastiveLoss", "batch": b, "n_contrastive": n, "what": "value under jit with the loss as an argument"},
+                                      f"ContrastiveLoss(prior scale {ps}, n_contrastive={n}) on a batch of {b}: {val} when called directly, {vj} when the "
+                                      f"same object is passed to a jitted function (as the training step does)")
+                except Exception as e:  # noqa: BLE001
+                    rep.violation({"loss": "ContrastiveLoss", "batch": b, "n_contrastive": n, "error": type(e).__name__},
+                                  f"ContrastiveLoss passed to a jitted function raised {type(e).__name__}: {str(e)[:200]}")
                 traces.append({"cfg": {"b": b, "n": n, "spread": spread}, "ev": [{"c": cc, "x": xx} for cc, xx in pairs],
                                "ret": {"value_matches": bool(matches), "nonneg": bool(val >= -1e-12), "value": val, "reference": ref}})
                 rep.count(1, ("contrastive", b, n, rep_i) if n < b - 1 else None)
